@@ -307,7 +307,10 @@ PROPS["C14"] = dict(
     unit_filter=lambda u: u.name.startswith("C14.") or u.name in ("C12.customize_it", "C12.customize", "C05.extract_iter"),
     legs=[dict(name="c14_trio", cmd="PYTHONPATH={repo} " + PY312 + " legs/c14_trio.py")],
     technique=TECH + "; bounded Trio task-tree leg",
-    explanation="Deductive part: unwrap_task(t) == t.coro; elaborate_nursery sets obj = manager._nursery and children == "
+    explanation="Deductive part: elaborate_to_thread_run_sync splices the frames of THE thread whose name object is the frame's thread_name "
+                "(identity, first such thread in threading.enumerate()), from that thread's current frame out to the frame just inward of "
+                "worker_fn (f_back walk cut by an invariant over a ghost ancestor function), hides the run_sync frame, and keeps the "
+                "task's inward rest iff the task is not simply waiting for the thread (reentrant from_thread call); unwrap_task(t) == t.coro; elaborate_nursery sets obj = manager._nursery and children == "
                 "[extract_child(t, for_task=True) for t in obj.child_tasks] in iteration order (element-wise, via the comprehension schema); "
                 "trap customisations are hide+prune through the proved customize/customize_it contracts; the insert / prune depth rule that "
                 "the thread-hop elaborators rely on (a prune issued from the inserted thread stack stops at next_inner) is the proved "
